@@ -68,6 +68,16 @@ def compare(m, label, route, model, other, inputs):
         why = cause(label)
         route = 'json' if (why and route.startswith('json')) else route
         m.violation(f'{route}/facts-differ/{"+".join(diff)}' + (f'/{why}' if why else ''), grammar=label, original={k: f1[k] for k in diff}, reloaded={k: f2[k] for k in diff})
+    # every node of a model is an entry point too: Model.parse() hands over to the grammar that owns the node
+    for t in inputs[:2]:
+        whole = impl.parse(other, t)
+        for r in (other.rules[0], other.rules[-1], other.rules[-1].exp):
+            part = impl.parse(r, t)
+            m.add('evaluations')
+            if part != whole:
+                m.violation(f'{route}/node-of-reloaded-model-does-not-reach-its-grammar', grammar=label, input=t, node=type(r).__name__,
+                            through_model=whole, through_node=part)
+                break
     nt = 0
     for t in inputs:
         a = impl.parse(model, t, _start_policy=True)
